@@ -208,27 +208,9 @@ func (c *config) WriteFrontendMaps() error {
 			fmaps.DefaultHostMap.AddHostnamePathMapping(hatypes.DefaultHost, path, path.Backend.ID)
 		}
 	}
-	// A server alias is answered by a single host, otherwise the entries of two
-	// hosts end up in the maps with the very same key and the one that answers
-	// is undefined. A declared hostname has precedence over an alias with the
-	// same name, and an alias requested by more than one host belongs to the
-	// first of them, in the order of their hostnames.
-	usedAliasName := map[string]bool{}
-	usedAliasRegex := map[string]bool{}
+	hostAliases := c.hostAliases()
 	for _, host := range c.hosts.BuildSortedItems() {
-		hostAlias := host.Alias
-		if name := strings.ToLower(hostAlias.AliasName); name != "" {
-			if usedAliasName[name] || c.hosts.FindHost(name) != nil {
-				hostAlias.AliasName = ""
-			}
-			usedAliasName[name] = true
-		}
-		if regex := hostAlias.AliasRegex; regex != "" {
-			if usedAliasRegex[regex] {
-				hostAlias.AliasRegex = ""
-			}
-			usedAliasRegex[regex] = true
-		}
+		hostAlias := hostAliases[host.Hostname]
 		for _, path := range host.Paths {
 			backendID := path.Backend.ID
 			if backendID != "" {
@@ -418,6 +400,36 @@ func (c *config) rootRedirectBackendChanged() bool {
 	return false
 }
 
+// hostAliases returns the server alias that each hostname answers to.
+//
+// A server alias is answered by a single host, otherwise the entries of two
+// hosts end up in the maps with the very same key and the one that answers
+// is undefined. A declared hostname has precedence over an alias with the
+// same name, and an alias requested by more than one host belongs to the
+// first of them, in the order of their hostnames.
+func (c *config) hostAliases() map[string]hatypes.HostAliasConfig {
+	aliases := map[string]hatypes.HostAliasConfig{}
+	usedAliasName := map[string]bool{}
+	usedAliasRegex := map[string]bool{}
+	for _, host := range c.hosts.BuildSortedItems() {
+		hostAlias := host.Alias
+		if name := strings.ToLower(hostAlias.AliasName); name != "" {
+			if usedAliasName[name] || c.hosts.FindHost(name) != nil {
+				hostAlias.AliasName = ""
+			}
+			usedAliasName[name] = true
+		}
+		if regex := hostAlias.AliasRegex; regex != "" {
+			if usedAliasRegex[regex] {
+				hostAlias.AliasRegex = ""
+			}
+			usedAliasRegex[regex] = true
+		}
+		aliases[host.Hostname] = hostAlias
+	}
+	return aliases
+}
+
 // WriteBackendMaps reads the model and writes haproxy's maps
 // used in the backends. Should be called before write the main
 // config file. This func doesn't change model state, except the
@@ -429,6 +441,7 @@ func (c *config) WriteBackendMaps() error {
 		return nil
 	}
 	mapBuilder := hatypes.CreateMaps(c.global.MatchOrder)
+	hostAliases := c.hostAliases()
 	for _, backend := range c.backends.ItemsAdd() {
 		if backend.NeedACL() {
 			mapsPrefix := c.options.mapsDir + "/_back_" + backend.ID
@@ -449,6 +462,9 @@ func (c *config) WriteBackendMaps() error {
 					pathsDefaultHostMap.AddHostnamePathMapping(hatypes.DefaultHost, p, path.ID)
 				} else {
 					pathsMap.AddHostnamePathMapping(path.Hostname(), p, path.ID)
+					// requests to a server alias reach the same backend via frontend maps,
+					// they need their path ID as well, otherwise no per path config is applied
+					pathsMap.AddAliasPathMapping(hostAliases[h.Hostname], p, path.ID)
 				}
 			}
 			backend.PathsMap = pathsMap
